@@ -20,6 +20,9 @@ impl Rng {
 pub enum Entropy {
     Low,
     High,
+    /// 400 PRNG bytes followed by a run of one byte: incompressible head, trivially compressible
+    /// tail - growing the tail byte by byte moves the compressed size across the plain size
+    Tail,
 }
 
 /// A payload of `len` bytes. Low: a 4-symbol pattern (2 bits/byte, compressible, below the 6.0
@@ -42,6 +45,15 @@ pub fn payload(len: usize, entropy: Entropy, tag: u64) -> Vec<u8> {
             if len > 0 {
                 v[0] = (tag & 0xff) as u8;
             }
+        }
+        Entropy::Tail => {
+            let mut r = Rng::new(tag ^ 0x7A11);
+            while v.len() < len.min(400) {
+                let x = r.next().to_le_bytes();
+                let n = (len.min(400) - v.len()).min(8);
+                v.extend_from_slice(&x[..n]);
+            }
+            v.resize(len, b'a');
         }
         Entropy::High => {
             let mut r = Rng::new(tag ^ 0xABCDEF);
